@@ -82,14 +82,34 @@ def unify(patterns: Sequence[str], stmts: Sequence[Tuple[str, ast.AST]], bound: 
     (None, index of the first pattern that cannot be matched under any consistent binding)."""
     bound = dict(bound or {})
     best_fail = [0]
+    # a parallel assignment `a, b = (x, y)` of independent values is the sequence `a = x; b = y` (sa/canon.py writes it that way in its views):
+    # both the patterns and the statements are matched in the split form
+    orig_index, split_pats = [], []
+    for k, p_ in enumerate(patterns):
+        parts = _split_parallel_pattern(p_)
+        split_pats.extend(parts)
+        orig_index.extend([k] * len(parts))
+    patterns = split_pats
+    stmts = _split_parallel_stmts(stmts)
 
-    def rec(i, b, used):
+    def together(a, b_, strict):
+        """components of one parallel pattern must come from one source statement (strict) or at least from one block"""
+        if a is b_:
+            return True
+        if strict:
+            return getattr(a, "lineno", -1) == getattr(b_, "lineno", -2) and getattr(a, "col_offset", -1) == getattr(b_, "col_offset", -2)
+        pa, pb = getattr(a, "_parent", None), getattr(b_, "_parent", None)
+        return pa is None or pb is None or pa is pb
+
+    def rec(i, b, used, strict):
         if i == len(patterns):
             return b, used
         rx, new = _compile(patterns[i], b)
         for j, (txt, node) in enumerate(stmts):
             m = rx.fullmatch(txt)
             if not m:
+                continue
+            if i > 0 and orig_index[i - 1] == orig_index[i] and not together(used[-1], node, strict):
                 continue
             nb = dict(b)
             ok = True
@@ -101,15 +121,48 @@ def unify(patterns: Sequence[str], stmts: Sequence[Tuple[str, ast.AST]], bound: 
                 nb[name] = v
             if not ok:
                 continue
-            r = rec(i + 1, nb, used + [node])
+            r = rec(i + 1, nb, used + [node], strict)
             if r[0] is not None:
                 return r
         best_fail[0] = max(best_fail[0], i)
         return None, None
-    b, used = rec(0, bound, [])
+    b, used = rec(0, bound, [], True)
+    if b is None and len(patterns) != len(set(orig_index)):
+        b, used = rec(0, bound, [], False)
     if b is None:
-        return None, best_fail[0]
-    return b, used
+        return None, orig_index[best_fail[0]] if orig_index else 0
+    # one matched node per original pattern (callers index `used` by pattern)
+    firsts = [used[i] for i in range(len(used)) if i == 0 or orig_index[i] != orig_index[i - 1]]
+    return b, firsts
+
+
+def _split_parallel_pattern(p_: str) -> List[str]:
+    if "," not in p_ or "=" not in p_:
+        return [p_]
+    try:
+        t = ast.parse(p_.replace("$", "__mv_").strip()).body
+    except SyntaxError:
+        return [p_]
+    if len(t) == 1 and isinstance(t[0], ast.Assign) and len(t[0].targets) == 1 and isinstance(t[0].targets[0], ast.Tuple) and isinstance(t[0].value, ast.Tuple) \
+            and len(t[0].targets[0].elts) == len(t[0].value.elts) and all(isinstance(x, ast.Name) for x in t[0].targets[0].elts):
+        return [f"{ast.unparse(a)}={ast.unparse(v)}".replace("__mv_", "$") for a, v in zip(t[0].targets[0].elts, t[0].value.elts)]
+    return [p_]
+
+
+def _split_parallel_stmts(stmts):
+    out = []
+    for txt, n in stmts:
+        if isinstance(n, ast.Assign) and len(n.targets) == 1 and isinstance(n.targets[0], ast.Tuple) and isinstance(n.value, ast.Tuple) \
+                and len(n.targets[0].elts) == len(n.value.elts) and all(isinstance(x, ast.Name) for x in n.targets[0].elts) \
+                and txt == norm(n):
+            tn = {x.id for x in n.targets[0].elts}
+            if len(tn) == len(n.targets[0].elts) and not any(isinstance(x, ast.Name) and x.id in tn for v in n.value.elts for x in ast.walk(v)) \
+                    and not any(isinstance(x, ast.Call) for v in n.value.elts for x in ast.walk(v)):
+                for a, v in zip(n.targets[0].elts, n.value.elts):
+                    out.append((f"{norm(a)}={norm(v)}", n))
+                continue
+        out.append((txt, n))
+    return out
 
 
 def find(pattern: str, stmts, bound=None):
